@@ -3,7 +3,8 @@ import net, gens
 from runner import Script, Cfg
 
 ID = "C06"
-THEOREMS = ["C06_syn_policy", "C06_syn_leaves_table", "C06_flag_table", "C06_cookie_encoding_injective"]
+THEOREMS = ["C06_syn_policy", "C06_syn_leaves_table", "C06_flag_table", "C06_cookie_encoding_injective",
+            "C06_syn_gets_synack", "C06_bad_syn_no_synack"]
 MONITORS = ["C06"]
 NEEDS_RELEASE = False
 RULE = ("every one of the 512 TCP flag words with SYN semantics decided by the frame, over IPv4 and IPv6, "
